@@ -12,23 +12,23 @@ open Regress Regress.IR Regress.Parse Regress.ESG
 
 /-! ## The pre-scan -/
 
-theorem capOpens_nil : capOpens [] = 0 := capGo_nil false
+theorem capOpens_nil (v : Bool) : capOpens v [] = 0 := capGo_nil v 0
 
-theorem capOpens_bs_end : capOpens [0x5C] = 0 := by
+theorem capOpens_bs_end (v : Bool) : capOpens v [0x5C] = 0 := by
   unfold capOpens
   rw [capGo] <;> simp [capGo_nil]
 
-theorem lexNames_nil : lexNames [] = [] := namesGo_nil false
+theorem lexNames_nil (v : Bool) : lexNames v [] = [] := namesGo_nil v 0
 
-theorem lexNames_bs_end : lexNames [0x5C] = [] := by
+theorem lexNames_bs_end (v : Bool) : lexNames v [0x5C] = [] := by
   unfold lexNames
   rw [namesGo] <;> simp [namesGo_nil]
 
-/-- The pre-scan's `skipBracket` is the scanners' in-class mode. -/
-theorem skipBracket_scan (F : Feat) (rest : List Nat) :
-    capGo true rest = capGo false (skipBracket rest) ∧
-    namesGo true rest = namesGo false (skipBracket rest) ∧
-    (fragGo F true rest = true → fragGo F false (skipBracket rest) = true) := by
+/-- The pre-scan's `skipBracket` is the scanners' in-class mode (no nesting). -/
+theorem skipBracket_scan (F : Feat) (hvk : F.vk = false) (rest : List Nat) :
+    capGo false 1 rest = capGo false 0 (skipBracket rest) ∧
+    namesGo false 1 rest = namesGo false 0 (skipBracket rest) ∧
+    (fragGo F 1 rest = true → fragGo F 0 (skipBracket rest) = true) := by
   fun_induction skipBracket rest with
   | case1 => exact ⟨by rw [capGo_nil, capGo_nil], by rw [namesGo_nil, namesGo_nil], fun _ => by rw [fragGo]⟩
   | case2 c hc =>
@@ -46,12 +46,97 @@ theorem skipBracket_scan (F : Feat) (rest : List Nat) :
   | case4 c rest h1 h2 =>
     have hc : c = 0x5D := by simpa using h2
     subst hc
-    exact ⟨capGo_close rest, namesGo_close rest, fun h => by rwa [fragGo_close] at h⟩
+    exact ⟨capGo_close false 0 rest, namesGo_close false 0 rest, fun h => by rwa [fragGo_close] at h⟩
   | case5 c rest h1 h2 ih =>
     have hc1 : c ≠ 0x5C := by simpa using h1
     have hc2 : c ≠ 0x5D := by simpa using h2
-    exact ⟨by rw [capGo_in rest hc1 hc2]; exact ih.1, by rw [namesGo_in rest hc1 hc2]; exact ih.2.1,
-      fun h => ih.2.2 (by rwa [fragGo_in F rest hc1 hc2] at h)⟩
+    exact ⟨by rw [capGo_in false 0 rest hc1 hc2 (.inl rfl)]; exact ih.1,
+      by rw [namesGo_in false 0 rest hc1 hc2 (.inl rfl)]; exact ih.2.1,
+      fun h => ih.2.2 (by rwa [fragGo_in F 0 rest hc1 hc2 (.inl hvk)] at h)⟩
+
+
+theorem skipBracketV_suffix : ∀ (l : List Nat) (d : Nat), skipBracketV l d <:+ l := by
+  intro l d
+  fun_induction skipBracketV l d with
+  | case1 => exact List.suffix_refl _
+  | case2 => exact List.nil_suffix
+  | case3 c d hc x r ih => exact (ih.trans (List.suffix_cons _ _)).trans (List.suffix_cons _ _)
+  | case4 c rest d h1 h2 ih => exact ih.trans (List.suffix_cons _ _)
+  | case5 c rest d h1 h2 h3 h4 => exact List.suffix_cons _ _
+  | case6 c rest d h1 h2 h3 h4 ih => exact ih.trans (List.suffix_cons _ _)
+  | case7 c rest d h1 h2 h3 ih => exact ih.trans (List.suffix_cons _ _)
+
+
+
+/-- The pre-scan's `skipBracketV` is the scanners' in-class mode with nesting. -/
+theorem skipBracketV_scan (F : Feat) (hvk : F.vk = true) (rest : List Nat) (d : Nat) : 1 ≤ d →
+    capGo true d rest = capGo true 0 (skipBracketV rest d) ∧
+    namesGo true d rest = namesGo true 0 (skipBracketV rest d) ∧
+    (fragGo F d rest = true → fragGo F 0 (skipBracketV rest d) = true) := by
+  fun_induction skipBracketV rest d with
+  | case1 d =>
+    intro _
+    exact ⟨by rw [capGo_nil, capGo_nil], by rw [namesGo_nil, namesGo_nil], fun _ => by rw [fragGo]⟩
+  | case2 c d hc =>
+    intro hd
+    obtain ⟨e, rfl⟩ : ∃ e, d = e + 1 := ⟨d - 1, by omega⟩
+    have : c = 0x5C := by simpa using hc
+    subst this
+    refine ⟨?_, ?_, fun _ => by rw [fragGo]⟩
+    · rw [capGo_nil, capGo] <;> simp [capGo_nil]
+    · rw [namesGo_nil, namesGo] <;> simp [namesGo_nil]
+  | case3 c d hc x r ih =>
+    intro hd
+    obtain ⟨e, rfl⟩ : ∃ e, d = e + 1 := ⟨d - 1, by omega⟩
+    have : c = 0x5C := by simpa using hc
+    subst this
+    have ih := ih hd
+    refine ⟨by rw [capGo_esc]; exact ih.1, by rw [namesGo_esc]; exact ih.2.1, fun h => ?_⟩
+    rw [fragGo_esc_in, Bool.and_eq_true] at h
+    exact ih.2.2 h.2
+  | case4 c rest d h1 h2 ih =>
+    intro hd
+    obtain ⟨e, rfl⟩ : ∃ e, d = e + 1 := ⟨d - 1, by omega⟩
+    have : c = 0x5B := by simpa using h2
+    subst this
+    have ih := ih (by omega)
+    refine ⟨by rw [capGo_nest]; exact ih.1, by rw [namesGo_nest]; exact ih.2.1, fun h => ?_⟩
+    rw [fragGo_nest F hvk] at h
+    exact ih.2.2 h
+  | case5 c rest d h1 h2 h3 h4 =>
+    intro hd
+    have hc : c = 0x5D := by simpa using h3
+    subst hc
+    have hd1 : d = 1 := by
+      have : d - 1 = 0 := by simpa using h4
+      omega
+    subst hd1
+    exact ⟨capGo_close true 0 rest, namesGo_close true 0 rest, fun h => by rwa [fragGo_close] at h⟩
+  | case6 c rest d h1 h2 h3 h4 ih =>
+    intro hd
+    have hc : c = 0x5D := by simpa using h3
+    subst hc
+    have hd2 : 2 ≤ d := by
+      have : ¬ (d - 1 = 0) := by simpa using h4
+      omega
+    obtain ⟨e, rfl⟩ : ∃ e, d = e + 2 := ⟨d - 2, by omega⟩
+    have ih := ih (by omega)
+    have e1 : e + 2 - 1 = e + 1 := by omega
+    rw [e1] at ih ⊢
+    refine ⟨by rw [capGo_close]; exact ih.1, by rw [namesGo_close]; exact ih.2.1, fun h => ?_⟩
+    rw [fragGo_close] at h
+    exact ih.2.2 h
+  | case7 c rest d h1 h2 h3 ih =>
+    intro hd
+    obtain ⟨e, rfl⟩ : ∃ e, d = e + 1 := ⟨d - 1, by omega⟩
+    have hc1 : c ≠ 0x5C := by simpa using h1
+    have hc2 : c ≠ 0x5B := by simpa using h2
+    have hc3 : c ≠ 0x5D := by simpa using h3
+    have ih := ih hd
+    exact ⟨by rw [capGo_in true e rest hc1 hc3 (.inr hc2)]; exact ih.1,
+      by rw [namesGo_in true e rest hc1 hc3 (.inr hc2)]; exact ih.2.1,
+      fun h => ih.2.2 (by rwa [fragGo_in F e rest hc1 hc3 (.inr hc2)] at h)⟩
+
 
 /-- When `try_consume_named_capture_group_name` finds no name it restores the input to just after
 the `<`, if there was one. -/
@@ -111,12 +196,13 @@ structure ScanInv (sc : Scan) (seen : List (List Nat)) : Prop where
 
 /-- On the fragment (with pairwise distinct group names) the pre-scan collects `lexNames` and counts
 `capOpens` (saturating at `MAX_CAPTURE_GROUPS`). -/
-theorem scanLoop_frag (F : Feat) (fl : Flags) (hkv : F.k = true → fl.unicodeSets = false) :
+theorem scanLoop_frag (F : Feat) (fl : Flags) (hkv : (F.k || F.lk) = true → fl.unicodeSets = false)
+    (hvv : F.vk = true → fl.unicodeSets = true ∧ F.k = false ∧ F.lk = false) :
     ∀ (fuel : Nat) (inp : List Nat) (sc : Scan) (seen : List (List Nat)),
     fragCore F inp = true → (F.nm = true → AllChar inp) → inp.length < fuel → ScanInv sc seen →
-    (seen ++ lexNames inp).Nodup →
-    ∃ sc', scanLoop fl fuel inp sc = .ok sc' ∧ ScanInv sc' (seen ++ lexNames inp) ∧
-      sc'.gmax = min (sc.gmax + capOpens inp) Gen.MAX_CAPTURE_GROUPS := by
+    (seen ++ lexNames F.vk inp).Nodup →
+    ∃ sc', scanLoop fl fuel inp sc = .ok sc' ∧ ScanInv sc' (seen ++ lexNames F.vk inp) ∧
+      sc'.gmax = min (sc.gmax + capOpens F.vk inp) Gen.MAX_CAPTURE_GROUPS := by
   intro fuel
   induction fuel with
   | zero => intro inp sc seen _ _ hf; omega
@@ -152,13 +238,31 @@ theorem scanLoop_frag (F : Feat) (fl : Flags) (hkv : F.k = true → fl.unicodeSe
         simp only [e1, beq_self_eq_true, Bool.false_eq_true, if_false, if_true]
         unfold fragCore at hfr
         rw [fragGo_open, Bool.and_eq_true] at hfr
-        rw [hkv hfr.1]
+        cases hvk : F.vk with
+        | true =>
+          -- class sets: brackets nest
+          rw [(hvv hvk).1]
+          simp only [if_true]
+          obtain ⟨hs1, hs2, hs3⟩ := skipBracketV_scan F hvk rest 1 (Nat.le_refl _)
+          have hlen := skipBracketV_length rest 1
+          have hcap : capOpens true (0x5B :: rest) = capOpens true (skipBracketV rest 1) := by
+            unfold capOpens; rw [capGo_open]; exact hs1
+          have hnam : lexNames true (0x5B :: rest) = lexNames true (skipBracketV rest 1) := by
+            unfold lexNames; rw [namesGo_open]; exact hs2
+          rw [hvk] at hnd ih
+          rw [hnam] at hnd ⊢
+          rw [hcap]
+          exact ih (skipBracketV rest 1) sc seen (hs3 hfr.2)
+            (fun h c hc => hch' h c ((skipBracketV_suffix rest 1).subset hc)) (by omega) hsi hnd
+        | false =>
+        rw [hkv (by simpa [hvk] using hfr.1)]
         simp only [Bool.false_eq_true, if_false]
-        obtain ⟨hs1, hs2, hs3⟩ := skipBracket_scan F rest
+        rw [hvk] at hnd ih
+        obtain ⟨hs1, hs2, hs3⟩ := skipBracket_scan F hvk rest
         have hlen := skipBracket_length rest
-        have hcap : capOpens (0x5B :: rest) = capOpens (skipBracket rest) := by
+        have hcap : capOpens false (0x5B :: rest) = capOpens false (skipBracket rest) := by
           unfold capOpens; rw [capGo_open]; exact hs1
-        have hnam : lexNames (0x5B :: rest) = lexNames (skipBracket rest) := by
+        have hnam : lexNames false (0x5B :: rest) = lexNames false (skipBracket rest) := by
           unfold lexNames; rw [namesGo_open]; exact hs2
         rw [hnam] at hnd ⊢
         rw [hcap]
@@ -198,8 +302,8 @@ theorem scanLoop_frag (F : Feat) (fl : Flags) (hkv : F.k = true → fl.unicodeSe
             rcases tryConsumeName_none htc with rfl | rfl
             · exact ih r3 _ seen hfr2 (fun h => (hch' h).tail) (by omega)
                 ⟨hsi.lk, hsi.l1, hsi.nk, hsi.nok, hsi.gm⟩ hnd
-            · rw [lexNames_plain _ (by decide) (by decide) (fun h => by cases h)] at hnd ⊢
-              rw [capOpens_plain _ (by decide) (by decide) (by decide)]
+            · rw [lexNames_plain _ _ (by decide) (by decide) (fun h => by cases h)] at hnd ⊢
+              rw [capOpens_plain _ _ (by decide) (by decide) (by decide)]
               exact ih r3 _ seen (fragCore_tail (by decide) (by decide) hfr2) (fun h => (hch' h).tail.tail)
                 (by simp only [List.length_cons] at hf; omega) ⟨hsi.lk, hsi.l1, hsi.nk, hsi.nok, hsi.gm⟩ hnd
           | some nm =>
@@ -251,8 +355,8 @@ theorem scanLoop_frag (F : Feat) (fl : Flags) (hkv : F.k = true → fl.unicodeSe
               exact this hm nm (by simp) rfl
             have hstep : ∀ g, g ≤ Gen.MAX_CAPTURE_GROUPS →
                 (if g + 1 > Gen.MAX_CAPTURE_GROUPS then Gen.MAX_CAPTURE_GROUPS else g + 1) ≤ Gen.MAX_CAPTURE_GROUPS ∧
-                min ((if g + 1 > Gen.MAX_CAPTURE_GROUPS then Gen.MAX_CAPTURE_GROUPS else g + 1) + capOpens r3)
-                  Gen.MAX_CAPTURE_GROUPS = min (g + (1 + capOpens r3)) Gen.MAX_CAPTURE_GROUPS := by
+                min ((if g + 1 > Gen.MAX_CAPTURE_GROUPS then Gen.MAX_CAPTURE_GROUPS else g + 1) + capOpens F.vk r3)
+                  Gen.MAX_CAPTURE_GROUPS = min (g + (1 + capOpens F.vk r3)) Gen.MAX_CAPTURE_GROUPS := by
               intro g hg; split <;> omega
             obtain ⟨hs1, hs2⟩ := hstep sc.gmax hgm
             have hsi' : ScanInv
@@ -285,12 +389,12 @@ theorem scanLoop_frag (F : Feat) (fl : Flags) (hkv : F.k = true → fl.unicodeSe
             refine ⟨sc', h1, by simpa using h2, ?_⟩
             rw [h3]; exact hs2
         · have hne : ∀ r2, rest ≠ 0x3F :: r2 := fun r2 e => hq ⟨r2, e⟩
-          rw [lexNames_plain _ (by decide) (by decide) (fun _ => hne)] at hnd ⊢
-          rw [capOpens_cap hne]
+          rw [lexNames_plain _ _ (by decide) (by decide) (fun _ => hne)] at hnd ⊢
+          rw [capOpens_cap _ hne]
           have hstep : ∀ g, g ≤ Gen.MAX_CAPTURE_GROUPS →
               (if g + 1 > Gen.MAX_CAPTURE_GROUPS then Gen.MAX_CAPTURE_GROUPS else g + 1) ≤ Gen.MAX_CAPTURE_GROUPS ∧
-              min ((if g + 1 > Gen.MAX_CAPTURE_GROUPS then Gen.MAX_CAPTURE_GROUPS else g + 1) + capOpens rest)
-                Gen.MAX_CAPTURE_GROUPS = min (g + (capOpens rest + 1)) Gen.MAX_CAPTURE_GROUPS := by
+              min ((if g + 1 > Gen.MAX_CAPTURE_GROUPS then Gen.MAX_CAPTURE_GROUPS else g + 1) + capOpens F.vk rest)
+                Gen.MAX_CAPTURE_GROUPS = min (g + (capOpens F.vk rest + 1)) Gen.MAX_CAPTURE_GROUPS := by
             intro g hg; split <;> omega
           obtain ⟨hs1, hs2⟩ := hstep sc.gmax hgm
           rcases rest with _ | ⟨y, r2⟩
@@ -317,8 +421,8 @@ theorem scanLoop_frag (F : Feat) (fl : Flags) (hkv : F.k = true → fl.unicodeSe
             exact ⟨sc', h1, h2, by rw [h3]; exact hs2⟩
       · have e3 : (c == 0x28) = false := by simp [hp]
         simp only [e3, Bool.false_eq_true, if_false]
-        rw [lexNames_plain _ hc1 hc2 (fun h => absurd h hp)] at hnd ⊢
-        rw [capOpens_plain _ hp hc1 hc2]
+        rw [lexNames_plain _ _ hc1 hc2 (fun h => absurd h hp)] at hnd ⊢
+        rw [capOpens_plain _ _ hp hc1 hc2]
         split
         · split
           · exact ih rest _ seen hfr' hch' (by omega) ⟨hsi.lk, hsi.l1, hsi.nk, hsi.nok, hsi.gm⟩ hnd
@@ -339,18 +443,20 @@ theorem anyConflict_singletons {β} (locs : List (β × List (List (Nat × Nat))
 the lexical group count and builds a name table whose keys are the lexical names. -/
 theorem parseCaptureGroups_frag (F : Feat) (st : PState) (h : fragCore F st.input = true)
     (hch : F.nm = true → AllChar st.input)
-    (hkv : F.k = true → st.flags.unicodeSets = false) (h0 : st.groupCountMax = 0) (hn0 : st.named = [])
-    (hnd : (lexNames st.input).Nodup) :
+    (hkv : (F.k || F.lk) = true → st.flags.unicodeSets = false)
+    (hvv : F.vk = true → st.flags.unicodeSets = true ∧ F.k = false ∧ F.lk = false)
+    (h0 : st.groupCountMax = 0) (hn0 : st.named = [])
+    (hnd : (lexNames F.vk st.input).Nodup) :
     ∃ N, parseCaptureGroups st =
-        .ok { st with groupCountMax := min (capOpens st.input) Gen.MAX_CAPTURE_GROUPS, named := N } ∧
-      N.map (·.1) = lexNames st.input ∧ NamedOK N := by
+        .ok { st with groupCountMax := min (capOpens F.vk st.input) Gen.MAX_CAPTURE_GROUPS, named := N } ∧
+      N.map (·.1) = lexNames F.vk st.input ∧ NamedOK N := by
   have hsi0 : ScanInv { named := st.named, gmax := st.groupCountMax } [] := by
     refine ⟨rfl, ?_, ?_, ?_, ?_⟩
     · intro e he; cases he
     · simp only [hn0]; rfl
     · simp only [hn0]; intro e he; cases he
     · simp only [h0]; exact Nat.zero_le _
-  obtain ⟨sc', h1, h2, h4⟩ := scanLoop_frag F st.flags hkv (st.input.length + 1) st.input
+  obtain ⟨sc', h1, h2, h4⟩ := scanLoop_frag F st.flags hkv hvv (st.input.length + 1) st.input
     { named := st.named, gmax := st.groupCountMax } [] h hch (by omega) hsi0 (by simpa using hnd)
   refine ⟨sc'.named, ?_, by simpa using h2.nk, h2.nok⟩
   unfold parseCaptureGroups
@@ -401,20 +507,22 @@ def effFlags (fl : Flags) : Flags := if fl.unicodeSets then { fl with unicode :=
 /-- `parse` answers `Ok` exactly when the descent (from the state the pre-scan leaves) consumes the
 whole pattern. -/
 theorem parse_isOk_iff (F : Feat) (pat : List Nat) (fl : Flags) (hb : Bnd pat) (hfr : fragCore F pat = true)
-    (hch : F.nm = true → AllChar pat) (hkv : F.k = true → fl.unicodeSets = false)
-    (hnd : (lexNames pat).Nodup) :
-    ∃ N, N.map (·.1) = lexNames pat ∧ NamedOK N ∧
+    (hch : F.nm = true → AllChar pat) (hkv : (F.k || F.lk) = true → fl.unicodeSets = false)
+    (hvv : F.vk = true → fl.unicodeSets = true ∧ F.k = false ∧ F.lk = false)
+    (hnd : (lexNames F.vk pat).Nodup) :
+    ∃ N, N.map (·.1) = lexNames F.vk pat ∧ NamedOK N ∧
       ((parse pat fl).isOk = true ↔
         ∃ nd st1, consumeDisjunction (parseFuel pat)
           { input := pat, flags := effFlags fl,
-            groupCountMax := min (capOpens pat) Gen.MAX_CAPTURE_GROUPS, named := N } = .ok (nd, st1) ∧
+            groupCountMax := min (capOpens F.vk pat) Gen.MAX_CAPTURE_GROUPS, named := N } = .ok (nd, st1) ∧
           st1.input = []) := by
-  have hkv' : F.k = true → (effFlags fl).unicodeSets = false := fun h => by
+  have hkv' : (F.k || F.lk) = true → (effFlags fl).unicodeSets = false := fun h => by
     unfold effFlags; rw [hkv h]; exact hkv h
-  obtain ⟨N, hg, hN, hNok⟩ := parseCaptureGroups_frag F { input := pat, flags := effFlags fl } hfr hch hkv' rfl rfl hnd
+  obtain ⟨N, hg, hN, hNok⟩ := parseCaptureGroups_frag F { input := pat, flags := effFlags fl } hfr hch hkv'
+    (fun h => ⟨by unfold effFlags; rw [(hvv h).1]; rfl, (hvv h).2⟩) rfl rfl hnd
   refine ⟨N, hN, hNok, ?_⟩
   have hpe : parse pat fl = parseBody
-      { input := pat, flags := effFlags fl, groupCountMax := min (capOpens pat) Gen.MAX_CAPTURE_GROUPS,
+      { input := pat, flags := effFlags fl, groupCountMax := min (capOpens F.vk pat) Gen.MAX_CAPTURE_GROUPS,
         named := N } := by
     unfold parse tryParse
     simp only
@@ -480,7 +588,7 @@ theorem mono0 (c : Cfg) (hc : c.u = false) (n : Nat) : Mono0 c n := by
       repeat' split at h
       all_goals grind [→ atomEscape_mono0, addName]
 
-theorem capGo_le_opens : ∀ (n : Nat) (m : Bool) (l : List Nat), l.length ≤ n → capGo m l ≤ opens l := by
+theorem capGo_le_opens (v : Bool) : ∀ (n : Nat) (m : Nat) (l : List Nat), l.length ≤ n → capGo v m l ≤ opens l := by
   intro n
   induction n with
   | zero => intro m l hl; cases l with | nil => rw [capGo_nil]; omega | cons _ _ => simp at hl
@@ -500,40 +608,50 @@ theorem capGo_le_opens : ∀ (n : Nat) (m : Bool) (l : List Nat), l.length ≤ n
           have : opens r' ≤ opens (x :: r') := by simp only [opens]; split <;> omega
           omega
       · cases m with
-        | true =>
+        | succ d =>
           by_cases hd : c = 0x5D
           · subst hd
             rw [capGo_close]
-            have := ih false r (by omega); omega
-          · rw [capGo_in r hc hd]
-            have := ih true r (by omega); omega
-        | false =>
+            have := ih d r (by omega); omega
+          · by_cases hb : c = 0x5B
+            · subst hb
+              cases v with
+              | true =>
+                rw [capGo_nest]
+                have := ih (d + 2) r (by omega); omega
+              | false =>
+                rw [capGo_in false d r hc hd (.inl rfl)]
+                have := ih (d + 1) r (by omega); omega
+            · rw [capGo_in v d r hc hd (.inr hb)]
+              have := ih (d + 1) r (by omega); omega
+        | zero =>
           by_cases hb : c = 0x5B
           · subst hb
             rw [capGo_open]
-            have := ih true r (by omega); omega
+            have := ih 1 r (by omega); omega
           · by_cases hp : c = 0x28
             · subst hp
               by_cases hq : ∃ r', r = 0x3F :: r'
               · obtain ⟨r', rfl⟩ := hq
-                have e1 := capOpens_q r'
+                have e1 := capOpens_q v r'
                 unfold capOpens at e1
                 rw [e1]
                 simp only [List.length_cons] at hl
-                have := ih false r' (by omega)
+                have := ih 0 r' (by omega)
                 simp only [opens]
                 split <;> simp <;> omega
-              · have e1 := capOpens_cap (fun r' e => hq ⟨r', e⟩)
+              · have e1 := capOpens_cap v (fun r' e => hq ⟨r', e⟩)
                 unfold capOpens at e1
                 rw [e1]
-                have := ih false r (by omega)
+                have := ih 0 r (by omega)
                 simp [opens]; omega
-            · have e1 := capOpens_plain r hp hc hb
+            · have e1 := capOpens_plain v r hp hc hb
               unfold capOpens at e1
               rw [e1]
-              have := ih false r (by omega); omega
+              have := ih 0 r (by omega); omega
 
-theorem capOpens_le_opens (l : List Nat) : capOpens l ≤ opens l := capGo_le_opens _ false l (Nat.le_refl _)
+theorem capOpens_le_opens (v : Bool) (l : List Nat) : capOpens v l ≤ opens l :=
+  capGo_le_opens v _ 0 l (Nat.le_refl _)
 
 theorem mapGet_isSome_iff {β} (m : List (List Nat × β)) (k : List Nat) :
     (mapGet m k).isSome = true ↔ k ∈ m.map (·.1) := by
@@ -554,15 +672,15 @@ theorem mapGet_isSome_iff {β} (m : List (List Nat × β)) (k : List Nat) :
         · exact h
 
 /-- Without named groups admitted the fragment has no group name. -/
-theorem namesGo_nil_of_frag (F : Feat) (hnm : F.nm = false) : ∀ (n : Nat) (m : Bool) (l : List Nat),
-    l.length ≤ n → fragGo F m l = true → namesGo m l = [] := by
+theorem namesGo_nil_of_frag (F : Feat) (hnm : F.nm = false) : ∀ (n : Nat) (m : Nat) (l : List Nat),
+    l.length ≤ n → fragGo F m l = true → namesGo F.vk m l = [] := by
   intro n
   induction n with
-  | zero => intro m l hl _; cases l with | nil => exact namesGo_nil m | cons _ _ => simp at hl
+  | zero => intro m l hl _; cases l with | nil => exact namesGo_nil _ m | cons _ _ => simp at hl
   | succ n ih =>
     intro m l hl hf
     rcases l with _ | ⟨c, r⟩
-    · exact namesGo_nil m
+    · exact namesGo_nil _ m
     · simp only [List.length_cons] at hl
       by_cases hc : c = 0x5C
       · subst hc
@@ -571,34 +689,47 @@ theorem namesGo_nil_of_frag (F : Feat) (hnm : F.nm = false) : ∀ (n : Nat) (m :
         · rw [namesGo_esc]
           simp only [List.length_cons] at hl
           cases m with
-          | true =>
+          | succ d =>
             rw [fragGo_esc_in, Bool.and_eq_true] at hf
-            exact ih true r' (by omega) hf.2
-          | false =>
+            exact ih (d + 1) r' (by omega) hf.2
+          | zero =>
             rw [fragGo_esc_out, Bool.and_eq_true] at hf
-            exact ih false r' (by omega) hf.2
+            exact ih 0 r' (by omega) hf.2
       · cases m with
-        | true =>
+        | succ d =>
           by_cases hd : c = 0x5D
           · subst hd
             rw [namesGo_close]
             rw [fragGo_close] at hf
-            exact ih false r (by omega) hf
-          · rw [namesGo_in r hc hd]
-            rw [fragGo_in F r hc hd] at hf
-            exact ih true r (by omega) hf
-        | false =>
+            exact ih d r (by omega) hf
+          · by_cases hb : c = 0x5B
+            · subst hb
+              cases hv : F.vk with
+              | true =>
+                rw [namesGo_nest]
+                rw [fragGo_nest F hv] at hf
+                have := ih (d + 2) r (by omega) hf
+                rwa [hv] at this
+              | false =>
+                rw [namesGo_in false d r hc hd (.inl rfl)]
+                rw [fragGo_in F d r hc hd (.inl hv)] at hf
+                have := ih (d + 1) r (by omega) hf
+                rwa [hv] at this
+            · rw [namesGo_in _ d r hc hd (.inr hb)]
+              rw [fragGo_in F d r hc hd (.inr hb)] at hf
+              exact ih (d + 1) r (by omega) hf
+        | zero =>
           by_cases hb : c = 0x5B
           · subst hb
             rw [namesGo_open]
             rw [fragGo_open, Bool.and_eq_true] at hf
-            exact ih true r (by omega) hf.2
+            exact ih 1 r (by omega) hf.2
           · have hf' : fragCore F (c :: r) = true := hf
             have htl := fragCore_tail hc hb hf'
             have hpo := fragCore_head hc hb hf'
             by_cases hq : c = 0x28 ∧ ∃ r', r = 0x3F :: r'
             · obtain ⟨rfl, r', rfl⟩ := hq
-              have e1 := lexNames_q r'
+              have e1 := lexNames_q F.vk r'
               unfold lexNames at e1
               rw [e1]
               have hpo := hpo rfl
@@ -616,14 +747,14 @@ theorem namesGo_nil_of_frag (F : Feat) (hnm : F.nm = false) : ∀ (n : Nat) (m :
                   · exact .inl (by intro r' h; cases h; exact hy rfl)
               rw [hna]
               simp only [Option.toList_none, List.nil_append]
-              exact ih false _ (by simp only [List.length_cons] at hl ⊢; omega) htl
-            · have e1 := lexNames_plain r hc hb (fun h r' hr => hq ⟨h, r', hr⟩)
+              exact ih 0 _ (by simp only [List.length_cons] at hl ⊢; omega) htl
+            · have e1 := lexNames_plain F.vk r hc hb (fun h r' hr => hq ⟨h, r', hr⟩)
               unfold lexNames at e1
               rw [e1]
-              exact ih false r (by omega) htl
+              exact ih 0 r (by omega) htl
 
 theorem lexNames_nil_of_frag (F : Feat) (hnm : F.nm = false) {pat : List Nat} (h : fragCore F pat = true) :
-    lexNames pat = [] := namesGo_nil_of_frag F hnm _ false pat (Nat.le_refl _) h
+    lexNames F.vk pat = [] := namesGo_nil_of_frag F hnm _ 0 pat (Nat.le_refl _) h
 
 theorem mapGet_append {β} (m m' : List (List Nat × β)) (k : List Nat) :
     mapGet (m ++ m') k = match mapGet m k with | some v => some v | none => mapGet m' k := by
@@ -640,49 +771,75 @@ theorem mapGet_append {β} (m m' : List (List Nat × β)) (k : List Nat) :
 /-- The descent from the state the pre-scan leaves, against `parsePattern`. -/
 theorem frag_core (F : Feat) (c : Cfg) (pat : List Nat) (fl' : Flags) (N : List (List Nat × List Nat))
     (hu : c.u = fl'.unicode)
-    (hmode : (c.u = true ∧ c.n = true) ∨ (c.u = false ∧ c.n = false))
+    (hmode : c.u = true → c.n = true)
     (heu : F.e = true → fl'.unicode = true)
-    (hkk : F.k = true → F.e = true ∧ fl'.unicode = true ∧ c.v = false ∧ fl'.unicodeSets = false)
-    (hnn : F.nm = true → F.e = true ∧ c.t = tabs)
-    (hch : F.e = true → ∀ c ∈ pat, Parse.isChar c = true)
+    (hkk : F.k = true → F.e = true ∧ fl'.unicode = true ∧ c.v = false ∧ fl'.unicodeSets = false ∧ F.vk = false)
+    (hnn : F.nm = true → c.t = tabs) (hmd : F.md = true → c.feat25 = true)
+    (hpr : F.pr = true → c.t = tabs ∧ c.v = fl'.unicodeSets)
+    (hle : F.le = true → fl'.unicode = false ∧ fl'.unicodeSets = false ∧ (F.nm = false → c.n = false))
+    (hlk : F.lk = true → fl'.unicode = false ∧ c.v = false ∧ fl'.unicodeSets = false ∧ F.vk = false ∧
+      (F.nm = false → c.n = false))
+    (hvc : F.vk = true → fl'.unicode = true ∧ F.e = true ∧ c.v = true ∧ c.t = tabs ∧ fl'.unicodeSets = true ∧
+      md true pat + brk pat ≤ 255)
+    (hch : F.e = true ∨ F.nm = true → ∀ c ∈ pat, Parse.isChar c = true)
     (hfr : fragCore F pat = true) (hlim : withinLimits pat = true)
-    (hN : N.map (·.1) = lexNames pat) (hNok : NamedOK N) (hnd : (lexNames pat).Nodup) :
+    (hN : N.map (·.1) = lexNames F.vk pat) (hNok : NamedOK N) (hnd : (lexNames F.vk pat).Nodup) :
     ((∃ nd st1, consumeDisjunction (parseFuel pat)
-        { input := pat, flags := fl', groupCountMax := min (capOpens pat) Gen.MAX_CAPTURE_GROUPS, named := N } =
+        { input := pat, flags := fl', groupCountMax := min (capOpens F.vk pat) Gen.MAX_CAPTURE_GROUPS, named := N } =
           .ok (nd, st1) ∧ st1.input = []) ↔
       ∃ st, parsePattern c pat = .ok st) ∧
-    (∀ st, parsePattern c pat = .ok st → st.names.reverse = lexNames pat) ∧ parsePattern c pat ≠ .fuel := by
+    (∀ st, parsePattern c pat = .ok st → st.names.reverse = lexNames F.vk pat) ∧ parsePattern c pat ≠ .fuel := by
   simp only [withinLimits, Bool.and_eq_true, decide_eq_true_eq] at hlim
   obtain ⟨⟨hl1, hl2⟩, hl3⟩ := hlim
-  have hK : capOpens pat ≤ 65535 := Nat.le_trans (capOpens_le_opens pat) hl2
-  have hmin : min (capOpens pat) Gen.MAX_CAPTURE_GROUPS = capOpens pat := by
+  have hdp : dpot F pat ≤ 255 := by
+    unfold dpot
+    cases hvk : F.vk with
+    | false => simpa using hl1
+    | true => simpa using (hvc hvk).2.2.2.2.2
+  have hK : capOpens F.vk pat ≤ 65535 := Nat.le_trans (capOpens_le_opens _ pat) hl2
+  have hmin : min (capOpens F.vk pat) Gen.MAX_CAPTURE_GROUPS = capOpens F.vk pat := by
     simp only [Gen.MAX_CAPTURE_GROUPS]; omega
   rw [hmin]
   -- the run of the crate (pre-scan count `K`, name table `N`), and hypothetical runs with a larger
   -- count and a larger table
   have hrun : ∀ (G : Nat) (N' : List (List Nat × List Nat)), NamedOK N' →
-      Out ⟨G, capOpens pat, N', lexNames pat⟩ (disj c (8 * (pat.length + 2)) pat {})
+      ((F.le = true ∨ F.lk = true) → F.nm = false → N' = []) →
+      Out ⟨G, capOpens F.vk pat, N', lexNames F.vk pat, fl'.unicodeSets⟩ (disj c (8 * (pat.length + 2)) pat {})
       (fun r est' => ∃ ts st', disjLoop (4 * pat.length + 7)
           { input := pat, flags := fl', groupCountMax := G, named := N', depth := 0 + 1 } [] = .ok (ts, st') ∧
-        CR F fl'.unicode ⟨G, capOpens pat, N', lexNames pat⟩
+        CR F fl'.unicode ⟨G, capOpens F.vk pat, N', lexNames F.vk pat, fl'.unicodeSets⟩
           { input := pat, flags := fl', groupCountMax := G, named := N', depth := 0 + 1 } r st' ∧
-        Joint ⟨G, capOpens pat, N', lexNames pat⟩ est' st')
+        Joint F ⟨G, capOpens F.vk pat, N', lexNames F.vk pat, fl'.unicodeSets⟩ est' st')
       (IsSyn (disjLoop (4 * pat.length + 7)
           { input := pat, flags := fl', groupCountMax := G, named := N', depth := 0 + 1 } [])) := by
-    intro G N' hN'
-    have hD := (sim_all (c := c) (F := F) (u := fl'.unicode) ⟨G, capOpens pat, N', lexNames pat⟩ hu heu
-      (fun h => ⟨(hkk h).1, (hkk h).2.1, (hkk h).2.2.1⟩) hnn hnd (8 * (pat.length + 2))).1
-    have he0 : EInv ⟨G, capOpens pat, N', lexNames pat⟩ ({} : ESG.St) := by
+    intro G N' hN' hN0
+    have hD := (sim_all (c := c) (F := F) (u := fl'.unicode) ⟨G, capOpens F.vk pat, N', lexNames F.vk pat, fl'.unicodeSets⟩ hu heu
+      (fun h => ⟨(hkk h).1, (hkk h).2.1, (hkk h).2.2.1, (hkk h).2.2.2.2⟩) hnn hmd hpr
+      (fun h => ⟨(hle h).1, (hle h).2.1, fun hn => ⟨(hle h).2.2 hn, hN0 (.inl h) hn⟩⟩)
+      (fun h => ⟨(hlk h).1, (hlk h).2.1, (hlk h).2.2.1, (hlk h).2.2.2.1,
+        fun hn => ⟨(hlk h).2.2.2.2 hn, hN0 (.inr h) hn⟩⟩)
+      (fun h => ⟨(hvc h).1, (hvc h).2.1, (hvc h).2.2.1, (hvc h).2.2.2.1, (hvc h).2.2.2.2.1⟩) hnd
+      (8 * (pat.length + 2))).1
+    have he0 : EInv ⟨G, capOpens F.vk pat, N', lexNames F.vk pat, fl'.unicodeSets⟩ ({} : ESG.St) := by
       refine ⟨by simp, ?_, ?_⟩
       · intro r hr; cases hr
       · intro x hx; cases hx
     exact hD pat {} (by omega) he0 (4 * pat.length + 7)
       { input := pat, flags := fl', groupCountMax := G, named := N', depth := 0 + 1 } [] (by omega) rfl
-      ⟨rfl, fun h => (hkk h).2.2.2, hfr, hch, by simp only; omega, by simp only; omega, by simp only; omega, rfl,
-        by simp, rfl, hN'⟩ ⟨rfl, by simp⟩
-  have hD' := hrun (capOpens pat) N hNok
+      ⟨rfl, fun h => (hkk h).2.2.2.1, hfr, hch, by simp only; omega, by simp only; omega, by simp only; omega, rfl,
+        by simp, rfl, hN', rfl⟩ ⟨rfl, by simp⟩
+  have hleg : F.le = true ∨ F.lk = true → fl'.unicode = false ∧ (F.nm = false → c.n = false) := by
+    rintro (h | h)
+    · exact ⟨(hle h).1, (hle h).2.2⟩
+    · exact ⟨(hlk h).1, (hlk h).2.2.2.2⟩
+  have hNnil : F.le = true ∨ F.lk = true → F.nm = false → N = [] := by
+    intro h hn
+    have := lexNames_nil_of_frag F hn hfr
+    rw [this] at hN
+    exact List.map_eq_nil_iff.1 hN
+  have hD' := hrun (capOpens F.vk pat) N hNok hNnil
   have hpf : parseFuel pat = (4 * pat.length + 7) + 1 := by unfold parseFuel; omega
-  have hdep : ({ input := pat, flags := fl', groupCountMax := capOpens pat, named := N } : PState).depth + 1 ≤
+  have hdep : ({ input := pat, flags := fl', groupCountMax := capOpens F.vk pat, named := N } : PState).depth + 1 ≤
       Gen.MAX_NESTING_DEPTH := by simp [Gen.MAX_NESTING_DEPTH]
   rw [hpf]
   unfold parsePattern
@@ -697,7 +854,7 @@ theorem frag_core (F : Feat) (c : Cfg) (pat : List Nat) (fl' : Flags) (N : List 
     obtain ⟨r, est'⟩ := p
     rw [hd] at hD'
     -- in a complete parse the recognizer has counted all groups and seen all names (second run)
-    have hfull : r = [] → est'.groups = capOpens pat ∧ est'.names.reverse = lexNames pat := by
+    have hfull : r = [] → est'.groups = capOpens F.vk pat ∧ est'.names.reverse = lexNames F.vk pat := by
       intro hr0
       subst hr0
       have hN2 : NamedOK (N ++ est'.refs.map (fun nm => (nm, [0]))) := by
@@ -707,7 +864,12 @@ theorem frag_core (F : Feat) (c : Cfg) (pat : List Nat) (fl' : Flags) (N : List 
         · simp only [List.mem_map] at h
           obtain ⟨nm, _, rfl⟩ := h
           simp
-      have hD2 := hrun USIZE_MAX _ hN2
+      have hD2 := hrun USIZE_MAX _ hN2 (by
+        intro h hn
+        have hcu : c.u = false := by rw [hu]; exact (hleg h).1
+        have := ((mono0 c hcu (8 * (pat.length + 2))).1 pat {} [] est' hd).2 ((hleg h).2 hn)
+        rw [hNnil h hn, this]
+        rfl)
       rw [hd] at hD2
       rcases hD2 with ⟨_, ts, st', _, ⟨hr, _, hi'⟩, hg'⟩ | ⟨hp2, _⟩
       · have hcap := hi'.cap
@@ -767,18 +929,24 @@ theorem frag_core (F : Feat) (c : Cfg) (pat : List Nat) (fl' : Flags) (N : List 
           have hm0 := (mono0 c · (8 * (pat.length + 2)))
           rcases hp with hp | ⟨x, hx, hnone⟩
           · have hcu : c.u = true := by
-              rcases hmode with h | h
-              · exact h.1
-              · have := ((hm0 h.1).1 pat {} [] est' hd).1
+              cases hcu' : c.u with
+              | true => rfl
+              | false =>
+                have := ((hm0 hcu').1 pat {} [] est' hd).1
                 rw [this] at hp
                 simp at hp
             have : ¬ est'.maxDec ≤ est'.groups := by
               simp only at hp; rw [hgr]; omega
             simp [hcu, this]
           · have hcn : c.n = true := by
-              rcases hmode with h | h
-              · exact h.2
-              · have := ((hm0 h.1).1 pat {} [] est' hd).2 h.2
+              cases hcn' : c.n with
+              | true => rfl
+              | false =>
+                have hcu' : c.u = false := by
+                  cases h : c.u with
+                  | false => rfl
+                  | true => rw [hmode h] at hcn'; cases hcn'
+                have := ((hm0 hcu').1 pat {} [] est' hd).2 hcn'
                 rw [this] at hx
                 cases hx
             have : (est'.refs.all fun nm => est'.names.contains nm) = false := by
